@@ -42,6 +42,8 @@ def apply_xf(name, t, opt, a=()):
         return t.swapRanks(depth=d)
     if name == "flattenRanks":
         return t.flattenRanks(depth=d, levels=opt.get("levels", 1), coord_style=opt.get("style", "tuple"))
+    if name == "unflattenRanks":
+        return t.unflattenRanks(depth=d, levels=opt.get("levels", 1))
     if name == "flatten_unflatten":
         return t.flattenRanks(depth=d, levels=opt.get("levels", 1)).unflattenRanks(depth=d, levels=opt.get("levels", 1))
     if name == "mergeRanks":
